@@ -11,17 +11,45 @@ import pickle
 import shutil
 import sys
 import tempfile
+import warnings
 
 import sourmash  # noqa: F401
 from sourmash import MinHash, SourmashSignature
 from sourmash.minhash import FrozenMinHash
-from sourmash.signature import (FrozenSourmashSignature, load_signatures_from_json, save_signatures_to_json,
+from sourmash.signature import (FrozenSourmashSignature, load_signatures_from_json, load_one_signature_from_json,
+                                save_signatures_to_json,
                                 _detect_input_type, SigInput)
 from sourmash._lowlevel import lib
 from sourmash.utils import decode_str
 
 VERIF = os.path.dirname(os.path.dirname(os.path.dirname(os.path.abspath(__file__))))
 LIT = "sourmash_signature"
+sys.path.insert(0, os.path.dirname(os.path.abspath(__file__)))
+
+# per-case counter the model does not see (reset at `#`): which of several spellings of one operation is used
+NROUTE = [0]
+
+
+UNIQ = [0]           # never reset: names of scratch files
+
+
+def uniq():
+    UNIQ[0] += 1
+    return UNIQ[0]
+
+
+def route(n):
+    NROUTE[0] += 1
+    return NROUTE[0] % n
+
+
+class ViewError(Exception):
+    """two routes to the same information disagree, or an earlier result changed"""
+
+
+def check(cond, what):
+    if not cond:
+        raise ViewError(what)
 
 
 def xs(s):
@@ -59,8 +87,27 @@ def mh_fields(mh):
     hs = mh.hashes
     items = ",".join(f"{a}:{b}" for a, b in hs.items())
     md5 = decode_str(mh._methodcall(lib.kmerminhash_md5sum))
+    # ---- several views of one sketch must agree
+    with warnings.catch_warnings():
+        warnings.simplefilter("ignore")
+        mins = mh.get_mins()
+        check(list(dict.fromkeys(mins)) == list(hs.keys()), "get_mins() vs hashes")
+        if mh.track_abundance:
+            wa = mh.get_mins(with_abundance=True)
+            check(dict(wa) == dict(hs.items()), "get_mins(with_abundance) vs hashes")
+        check(mh.max_hash == mh._max_hash, "max_hash vs _max_hash")
+    if k != "!":            # (a stored k that is not a multiple of 3: `.ksize` asserts, and so does __getstate__)
+        check(mh == mh, "MinHash.__eq__ reflexive")
+    check(list(hs) == list(hs.keys()) and len(hs) == len(list(hs.items())), "_HashesWrapper iteration")
+    check((mh.scaled == 0) == (mh._max_hash == 0), "scaled vs max_hash")
+    check(mh.is_dna == (mh.moltype == "DNA") and [mh.is_protein, mh.dayhoff, mh.hp].count(True) == (0 if mh.is_dna else 1),
+          "moltype vs flags")
     return (f"mol={mh.moltype} k={k} seed={mh.seed} num={mh.num} mx={mh._max_hash} sc={mh.scaled} "
             f"tr={int(mh.track_abundance)} n={len(mh)} md5=R{md5.encode('utf-8').hex()} hs={items}")
+
+
+def is_params(o):
+    return getattr(o, "_verif_params", False)
 
 
 def show(o):
@@ -71,8 +118,21 @@ def show(o):
     f = mh_fields(mh)
     # the signature's own md5sum() must be the sketch's
     sm = o.md5sum()
-    assert ("md5=R" + sm.encode("utf-8").hex()) in f, "signature md5sum differs from its sketch's"
-    return f"ok sig fr={fr} name={xs(o.name)} fn={xs(o.filename)} lic={xs(o.license)} " + f
+    check(("md5=R" + sm.encode("utf-8").hex()) in f, "signature md5sum vs its sketch's")
+    # ---- several views of one signature must agree
+    check(o._name == o.name, "_name vs name")
+    check(hash(o) == hash(sm), "hash(sig) vs md5sum")
+    dn = o._display_name()
+    check(dn == (o.name or o.filename or sm[:8]) and str(o) == dn, "str(sig) / _display_name vs name, filename, md5")
+    rp = repr(o)
+    check(sm[:8] in rp and o.name in rp, "repr(sig) vs name, md5")
+    nsk = len(o)
+    if not is_params(o):
+        # (signatures built by from_params hold B-tree sketches, for which `==` is not implemented: C09.7)
+        check(o == o and not (o != o), "sig == sig reflexive")
+    if " k=! " not in f:
+        check(o.minhash == mh, "sig.minhash twice")
+    return f"ok sig fr={fr} nsk={nsk} name={xs(o.name)} fn={xs(o.filename)} lic={xs(o.license)} " + f
 
 
 # ---- documents -----------------------------------------------------------
@@ -221,10 +281,101 @@ def dump_doc(parsed, gz):
     return " ".join(out)
 
 
+def tmpdir(state):
+    if state["tmpd"] is None:
+        os.makedirs(os.path.join(VERIF, ".build", "tmp"), exist_ok=True)
+        state["tmpd"] = tempfile.mkdtemp(prefix="json_impl_", dir=os.path.join(VERIF, ".build", "tmp"))
+    return state["tmpd"]
+
+
+def frozen_refuses(o, before):
+    """a frozen signature refuses every setter and stays what it was (the loader hands out frozen objects)"""
+    for what, fn in (("name", lambda: setattr(o, "name", "zz")), ("_name", lambda: setattr(o, "_name", "zz")),
+                     ("filename", lambda: setattr(o, "filename", "zz")),
+                     ("minhash", lambda: setattr(o, "minhash", o.minhash)),
+                     ("__setstate__", lambda: o.__setstate__((o.minhash, "zz", "zz")))):
+        try:
+            fn()
+        except ValueError:
+            pass
+        else:
+            raise ViewError(f"a frozen signature accepted {what}")
+    o.into_frozen()
+    check(isinstance(o, FrozenSourmashSignature) and show(o) == before, "a refused setter changed a frozen signature")
+
+
+def put(T, H, r, o):
+    """keep EVERY object a call returned until the end of the case, with what it looked like then"""
+    T[r] = o
+    res = show(o)
+    if isinstance(o, FrozenSourmashSignature) and route(4) == 0:
+        frozen_refuses(o, res)
+    H.append((r, o, res))
+    return res
+
+
+def recheck(H):
+    """nothing a later call did may have changed an earlier result (all ops of this stream are read-only
+    on existing objects); asked in a different order than they were made"""
+    for r, o, res in reversed(H):
+        now = show(o)
+        check(now == res, f"object first returned as handle {r} changed: was `{res[:160]}` is `{now[:160]}`")
+    for r, o, res in H:
+        check(show(o) == res, f"object first returned as handle {r} changed on the second pass")
+
+
+def save_bytes(sigs, c, fpmode, state):
+    """the modelled call, then the other spellings of the same operation: all must give the same bytes"""
+    if fpmode == 0:
+        raw = save_signatures_to_json(sigs, compression=c)
+    elif fpmode == 1:
+        fp = io.BytesIO()
+        assert save_signatures_to_json(sigs, fp, compression=c) is None
+        raw = fp.getvalue()
+    else:
+        fp = io.StringIO()
+        assert save_signatures_to_json(sigs, fp, compression=c) is None
+        raw = fp.getvalue().encode("utf-8")
+    gz = raw[:2] == b"\x1f\x8b"
+    text = gzip.decompress(raw) if gz else raw
+    # read-only entry point called twice
+    again = save_signatures_to_json(tuple(sigs), compression=c)
+    check((gzip.decompress(again) if again[:2] == b"\x1f\x8b" else again) == text, "save twice")
+    r = route(4)
+    if r == 0:
+        with warnings.catch_warnings():
+            warnings.simplefilter("ignore")
+            import sourmash as _sm
+            alt = _sm.save_signatures(sigs, compression=c)
+        check((gzip.decompress(alt) if alt[:2] == b"\x1f\x8b" else alt) == text, "sourmash.save_signatures vs save_signatures_to_json")
+        check((alt[:2] == b"\x1f\x8b") == gz, "sourmash.save_signatures compression")
+    elif r == 1:
+        from sourmash.sourmash_args import SaveSignaturesToLocation
+        for ext, want_gz in ((".sig", False), (".sig.gz", True)):
+            pth = os.path.join(tmpdir(state), f"alt{uniq()}{ext}")
+            with SaveSignaturesToLocation(pth) as sv:
+                for x in sigs:
+                    sv.add(x)
+            data = open(pth, "rb").read()
+            check((data[:2] == b"\x1f\x8b") == want_gz, "SaveSignaturesToLocation: gzip by file name")
+            check((gzip.decompress(data) if want_gz else data) == text, "SaveSignaturesToLocation vs save_signatures_to_json")
+    elif r == 2:
+        # any compression level gives the same document
+        for lvl in (1, 5, 9, 200):
+            z = save_signatures_to_json(sigs, compression=lvl)
+            check(z[:2] == b"\x1f\x8b" and gzip.decompress(z) == text, f"compression={lvl}")
+    return raw, gz, text
+
+
+def fields_of(sigs):
+    return [show(x) for x in sigs]
+
+
 def main():
     T = {}
-    D = {}          # doc handle -> (text bytes, gz bytes or None)
-    tmpd = None
+    D = {}          # doc handle -> (text bytes, gz bytes or None[, "blob"])
+    H = []          # history: (handle, object, what it looked like when it was returned)
+    state = {"tmpd": None}
     out = sys.stdout
     for line in sys.stdin:
         w = line.split()
@@ -236,6 +387,8 @@ def main():
             if op == "#":
                 T = {}
                 D = {}
+                H = []
+                NROUTE[0] = 0
                 out.write("#\n")
                 continue
             a = w[1:]
@@ -248,36 +401,94 @@ def main():
                     mh.set_abundances(dict(ps))
                 else:
                     mh.add_many([p[0] for p in ps])
-                T[r] = mh
-                res = show(mh)
+                res = put(T, H, r, mh)
             elif op == "sig":
                 r, h = int(a[0]), int(a[1])
                 if not isinstance(T[h], MinHash):
                     raise KeyError
-                T[r] = SourmashSignature(T[h], name=unx(a[2]), filename=unx(a[3]))
-                res = show(T[r])
+                name, fname = unx(a[2]), unx(a[3])
+                rt = route(3)
+                if rt == 0:
+                    o = SourmashSignature(T[h], name=name, filename=fname)
+                elif rt == 1:
+                    o = SourmashSignature(T[h], name, fname)
+                else:
+                    # keyword defaults, then the setters (which the constructor uses for non-empty values)
+                    o = SourmashSignature(T[h])
+                    if name:
+                        o._name = name
+                    if fname:
+                        o.filename = fname
+                res = put(T, H, r, o)
+            elif op == "params":
+                # SourmashSignature.from_params(ComputeParameters(ksizes=[...])): several sketches in ONE signature
+                from sourmash.command_compute import ComputeParameters
+                r, scaled, num, track, seed = int(a[0]), int(a[1]), int(a[2]), int(a[3]), int(a[4])
+                ks = [int(x) for x in a[5].split(",")]
+                prm = ComputeParameters(ksizes=ks, seed=seed, protein=False, dayhoff=False, hp=False, dna=True,
+                                        num_hashes=num, track_abundance=bool(track), scaled=scaled)
+                o = SourmashSignature.from_params(prm)
+                o._verif_params = True
+                res = put(T, H, r, o)
             elif op == "getmh":
                 r, h = int(a[0]), int(a[1])
                 if not isinstance(T[h], SourmashSignature):
                     raise KeyError
-                T[r] = T[h].minhash
-                res = show(T[r])
+                res = put(T, H, r, T[h].minhash)
             elif op == "copy":
                 r, h = int(a[0]), int(a[1])
-                T[r] = copy.copy(T[h])
-                res = show(T[r])
+                rt = route(3)
+                o = copy.copy(T[h]) if rt == 0 else (T[h].copy() if rt == 1 else T[h].__copy__())
+                if is_params(T[h]):
+                    o._verif_params = False     # the copy holds a plain (first) sketch
+                res = put(T, H, r, o)
             elif op == "pickle":
                 r, h = int(a[0]), int(a[1])
-                T[r] = pickle.loads(pickle.dumps(T[h]))
-                res = show(T[r])
+                rt = route(6)
+                if rt == 5:
+                    o = copy.deepcopy(T[h])
+                else:
+                    o = pickle.loads(pickle.dumps(T[h], protocol=[None, 2, 3, 4, 5][rt] if rt else pickle.DEFAULT_PROTOCOL))
+                res = put(T, H, r, o)
             elif op == "tomut":
                 r, h = int(a[0]), int(a[1])
-                T[r] = T[h].to_mutable()
-                res = show(T[r])
+                res = put(T, H, r, T[h].to_mutable())
             elif op == "tofrozen":
                 r, h = int(a[0]), int(a[1])
-                T[r] = T[h].to_frozen()
-                res = show(T[r])
+                src = T[h]
+                if route(2) == 0 or isinstance(src, (FrozenMinHash, FrozenSourmashSignature)):
+                    o = src.to_frozen()
+                else:
+                    o = src.copy()
+                    o.into_frozen()
+                res = put(T, H, r, o)
+            elif op == "update":
+                r, h = int(a[0]), int(a[1])
+                if not isinstance(T[h], FrozenSourmashSignature):
+                    raise KeyError
+                with T[h].update() as u:
+                    pass
+                res = put(T, H, r, u)
+            elif op == "eq":
+                x, y = T[int(a[0])], T[int(a[1])]
+                if isinstance(x, MinHash) != isinstance(y, MinHash) or is_params(x) or is_params(y):
+                    raise KeyError
+                e = bool(x == y)
+                check(bool(x != y) == (not e), "!= vs ==")
+                if isinstance(x, SourmashSignature):
+                    check(bool(y == x) == e, "== symmetric")
+                    if e:
+                        check(hash(x) == hash(y) and x.md5sum() == y.md5sum(), "equal signatures, different md5 / hash")
+                res = f"ok {int(e)}"
+            elif op == "eqp":
+                # `==` with a from_params signature on the left (B-tree sketches): implementation-only op
+                x, y = T[int(a[0])], T[int(a[1])]
+                if not (isinstance(x, SourmashSignature) and isinstance(y, SourmashSignature)):
+                    raise KeyError
+                res = f"ok {int(bool(x == y))}"
+            elif op == "recheck":
+                recheck(H)
+                res = "ok"
             elif op == "show":
                 res = show(T[int(a[0])])
             elif op == "save":
@@ -285,18 +496,7 @@ def main():
                 sigs = [T[int(h)] for h in a[3:]]
                 if not all(isinstance(s, SourmashSignature) for s in sigs):
                     raise KeyError
-                if fpmode == 0:
-                    raw = save_signatures_to_json(sigs, compression=c)
-                elif fpmode == 1:
-                    fp = io.BytesIO()
-                    assert save_signatures_to_json(sigs, fp, compression=c) is None
-                    raw = fp.getvalue()
-                else:
-                    fp = io.StringIO()
-                    assert save_signatures_to_json(sigs, fp, compression=c) is None
-                    raw = fp.getvalue().encode("utf-8")
-                gz = raw[:2] == b"\x1f\x8b"
-                text = gzip.decompress(raw) if gz else raw
+                raw, gz, text = save_bytes(sigs, c, fpmode, state)
                 D[d] = (text, raw if gz else None)
                 # the document field by field, and the uncompressed text byte for byte
                 res = dump_doc(json.loads(text.decode("utf-8")), gz) + " tx=H" + text.hex()
@@ -313,8 +513,13 @@ def main():
                 blob = bytes.fromhex(a[1][1:])
                 D[d] = (blob, None, "blob")
                 res = f"ok blob n={len(blob)}"
-            elif op == "load":
-                r, d, via, k, m, lit, do_raise = int(a[0]), int(a[1]), a[2], a[3], a[4], int(a[5]), int(a[6])
+            elif op in ("load", "loadone"):
+                one = op == "loadone"
+                if one:
+                    r, d, via, k, m = int(a[0]), int(a[1]), a[2], a[3], a[4]
+                    lit, do_raise = 0, 0
+                else:
+                    r, d, via, k, m, lit, do_raise = int(a[0]), int(a[1]), a[2], a[3], a[4], int(a[5]), int(a[6])
                 text, gzb = D[d][0], D[d][1]
                 is_blob = len(D[d]) == 3
                 if is_blob and via in ("gz", "fgz"):
@@ -328,37 +533,163 @@ def main():
                     kw["ksize"] = int(k)
                 if m != "-":
                     kw["select_moltype"] = unx(m)
-                kw["do_raise"] = bool(do_raise)
-                if via == "str":
-                    data = text.decode("utf-8")
-                elif via == "bytes":
-                    data = text
-                elif via == "gz":
-                    data = gzb
-                elif via in ("path", "ftext", "fbin", "fgz"):
-                    if tmpd is None:
-                        os.makedirs(os.path.join(VERIF, ".build", "tmp"), exist_ok=True)
-                        tmpd = tempfile.mkdtemp(prefix="json_impl_", dir=os.path.join(VERIF, ".build", "tmp"))
-                    use_gz = via == "fgz" or (via == "path" and r % 2 == 1 and not is_blob)
-                    ext = ".sig.gz" if use_gz else ".sig"
-                    if is_blob:           # misleading extensions: the readers must go by content
-                        ext = [".sig", ".sig.gz", ".zip", ".json.gz", ".gz", ".bz2", ".sig.xz", ""][r % 8]
-                    name = f"d{d}_{r}" + (("_" + LIT) if lit else "") + ext
-                    p = os.path.join(tmpd, name)
-                    with open(p, "wb") as f:
-                        f.write(gzb if use_gz else text)
-                    if via == "path":
-                        data = p
-                    elif via == "ftext":
-                        data = open(p, "rt", encoding="utf-8")
+                if not one:
+                    kw["do_raise"] = bool(do_raise)
+
+                def make_data():
+                    if via == "str":
+                        return text.decode("utf-8")
+                    if via == "bytes":
+                        return text
+                    if via == "gz":
+                        return gzb
+                    if via in ("path", "ftext", "ftexttmp", "fbin", "fgz"):
+                        use_gz = via == "fgz" or (via == "path" and r % 2 == 1 and not is_blob)
+                        ext = ".sig.gz" if use_gz else ".sig"
+                        if is_blob:           # misleading extensions: the readers must go by content
+                            ext = [".sig", ".sig.gz", ".zip", ".json.gz", ".gz", ".bz2", ".sig.xz", ""][r % 8]
+                        name = f"d{d}_{r}_{uniq()}" + (("_" + LIT) if lit else "") + ext
+                        pth = os.path.join(tmpdir(state), name)
+                        with open(pth, "wb") as f:
+                            f.write(gzb if use_gz else text)
+                        if via == "path":
+                            return pth
+                        if via in ("ftext", "ftexttmp"):
+                            return open(pth, "rt", encoding="utf-8")
+                        return open(pth, "rb")
+                    raise KeyError
+
+                def call(fn, kwargs):
+                    try:
+                        if via == "ftexttmp":
+                            # a text-mode file object nobody else holds a reference to: open(path) as the argument
+                            x = fn(make_data(), **kwargs)
+                            return ("ok", [x] if one else list(x))
+                        keep = make_data()          # (the caller keeps its file object, as in `with open(..) as fp`)
+                        x = fn(keep, **kwargs)
+                        return ("ok", [x] if one else list(x))
+                    except KeyError:
+                        raise
+                    except BaseException as e:      # noqa: BLE001
+                        return ("err", exc_name(e))
+
+                primary_fn = load_one_signature_from_json if one else load_signatures_from_json
+                st, val = call(primary_fn, kw)
+                # ---- the other spellings of the same call must answer the same
+                alts = []
+                rt = route(5)
+                import sourmash as _sm
+                if rt == 0:
+                    alts.append((_sm.load_one_signature if one else _sm.load_signatures, dict(kw)))
+                elif rt == 1:
+                    k2 = dict(kw)
+                    if "ksize" in k2:
+                        k2["ksize"] = str(k2["ksize"])          # "int-like" strings are accepted
+                    if "select_moltype" in k2:
+                        try:
+                            k2["select_moltype"] = k2["select_moltype"].encode("utf-8")   # bytes pass through
+                        except UnicodeError:
+                            pass
+                    k2["ignore_md5sum"] = True
+                    alts.append((primary_fn, k2))
+                elif rt == 2:
+                    k2 = dict(kw)
+                    k2.setdefault("ksize", None)
+                    k2.setdefault("select_moltype", None)
+                    k2["ignore_md5sum"] = False
+                    alts.append((primary_fn, k2))
+                elif rt == 3:
+                    alts.append((primary_fn, dict(kw)))         # simply twice
+                with warnings.catch_warnings():
+                    warnings.simplefilter("ignore")
+                    for fn, k2 in alts:
+                        st2, val2 = call(fn, k2)
+                        check(st2 == st, f"{fn.__name__}({sorted(k2)}) answers {st2} {val2 if st2 == 'err' else ''}, the modelled call {st} {val if st == 'err' else ''}")
+                        if st == "ok":
+                            check(fields_of(val2) == fields_of(val), f"{fn.__name__}({sorted(k2)}) returns other signatures")
+                        else:
+                            check(val2 == val, f"{fn.__name__} raises {val2}, the modelled call {val}")
+                if rt == 4 and st == "ok" and via == "path" and not one and k == "-" and m == "-" and val \
+                        and not any(" k=! " in t for t in fields_of(val)):     # (the index layer needs a readable k)
+                    # the collection-level route over the same file
+                    with warnings.catch_warnings():
+                        warnings.simplefilter("ignore")
+                        idx = list(_sm.load_file_as_signatures(make_data()))
+                    check(fields_of(idx) == fields_of(val), "load_file_as_signatures vs load_signatures_from_json")
+                if st == "err":
+                    res = "err " + val
+                else:
+                    sigs = val
+                    shown = []
+                    for i, x in enumerate(sigs):
+                        shown.append(put(T, H, r + i, x))
+                    res = (shown[0] if one else f"ok n={len(sigs)}" + "".join(" ; " + t for t in shown))
+            elif op == "cli":
+                import cli_server
+                sub = a[0]
+                d_in = int(a[2]) if sub in ("cat", "rename") else int(a[1])
+                text, gzb = D[d_in][0], D[d_in][1]
+                if len(D[d_in]) == 3:
+                    raise KeyError
+                td = tmpdir(state)
+                NROUTE[0] += 1
+                u = uniq()
+                inp = os.path.join(td, f"cli{u}_in" + (".sig.gz" if (gzb is not None and NROUTE[0] % 2) else ".sig"))
+                with open(inp, "wb") as f:
+                    f.write(gzb if inp.endswith(".gz") else text)
+                ref = list(load_signatures_from_json(inp, do_raise=True))
+                if sub in ("cat", "rename"):
+                    d_out = int(a[1])
+                    outp = os.path.join(td, f"cli{u}_out" + (".sig.gz" if NROUTE[0] % 3 == 0 else ".sig"))
+                    argv = ["sig", sub, inp, "-o", outp, "-q"]
+                    if sub == "rename":
+                        argv = ["sig", "rename", inp, unx(a[3]), "-o", outp, "-q"]
+                    ans = cli_server.run(argv)
+                    if ans["rc"] != 0:
+                        res = "err CLI"
                     else:
-                        data = open(p, "rb")
+                        raw = open(outp, "rb").read()
+                        # the same command again into the SAME output file: a second writer on one location
+                        ans2 = cli_server.run(argv)
+                        check(ans2["rc"] == 0 and open(outp, "rb").read()[:2] == raw[:2], "second run into the same output failed")
+                        r2 = open(outp, "rb").read()
+                        un = (lambda b: gzip.decompress(b) if b[:2] == b"\x1f\x8b" else b)
+                        check(un(r2) == un(raw), "writing twice to one output file gives another document")
+                        gz = raw[:2] == b"\x1f\x8b"
+                        check(gz == outp.endswith(".gz"), "CLI output compression goes by the file name")
+                        t2 = gzip.decompress(raw) if gz else raw
+                        D[d_out] = (t2, None)
+                        res = dump_doc(json.loads(t2.decode("utf-8")), False) + " tx=H" + t2.hex()
+                elif sub == "describe":
+                    csvp = os.path.join(td, f"cli{u}.csv")
+                    ans = cli_server.run(["sig", "describe", inp, "--csv", csvp, "-q"])
+                    check(ans["rc"] == 0, "sig describe failed: " + ans["err"][-200:])
+                    import csv
+                    rows = list(csv.DictReader(open(csvp, newline="", encoding="utf-8")))
+                    check(len(rows) == len(ref), f"describe lists {len(rows)} signatures, the file holds {len(ref)}")
+                    for row, x in zip(rows, ref):
+                        mh = x.minhash
+                        want = {"md5": x.md5sum(), "ksize": str(mh.ksize), "moltype": mh.moltype, "num": str(mh.num),
+                                "scaled": str(mh.scaled), "n_hashes": str(len(mh)), "seed": str(mh.seed),
+                                "with_abundance": str(int(mh.track_abundance)), "name": x.name, "filename": x.filename,
+                                "license": x.license, "sum_hashes": str(sum(mh.hashes.values()))}
+                        for key, v in want.items():
+                            got = row[key]
+                            # the csv module writes and reads text; \r and \n inside names survive quoted
+                            check(got == v, f"describe reports {key}={got[:60]!r}, the loaded signature has {v[:60]!r}")
+                    res = f"ok n={len(rows)}"
+                elif sub == "split":
+                    outd = os.path.join(td, f"cli{u}_split")
+                    ans = cli_server.run(["sig", "split", inp, "--output-dir", outd, "-q"])
+                    check(ans["rc"] == 0, "sig split failed: " + ans["err"][-200:])
+                    got = []
+                    for fn in sorted(os.listdir(outd)):
+                        got += list(load_signatures_from_json(os.path.join(outd, fn), do_raise=True))
+                    check(sorted(fields_of(got)) == sorted(fields_of(ref)), "sig split: the pieces are not the signatures of the file: " + repr([x for x in fields_of(ref) if x not in fields_of(got)])[:200] + " VS " + repr(sorted(os.listdir(outd)))[:300])
+                    check(len(os.listdir(outd)) == len(ref), "sig split: one file per signature")
+                    res = f"ok n={len(got)}"
                 else:
                     raise KeyError
-                sigs = list(load_signatures_from_json(data, **kw))
-                for i, s in enumerate(sigs):
-                    T[r + i] = s
-                res = f"ok n={len(sigs)}" + "".join(" ; " + show(s) for s in sigs)
             elif op == "sniff":
                 kind, hx, ex = a[0], a[1], int(a[2])
                 assert hx.startswith("h")
@@ -375,11 +706,8 @@ def main():
                     raise KeyError
                 if ex and kind in ("str", "bytes"):
                     # the generator promises `ex` only for names that can be created
-                    if tmpd is None:
-                        os.makedirs(os.path.join(VERIF, ".build", "tmp"), exist_ok=True)
-                        tmpd = tempfile.mkdtemp(prefix="json_impl_", dir=os.path.join(VERIF, ".build", "tmp"))
                     cwd = os.getcwd()
-                    os.chdir(tmpd)
+                    os.chdir(tmpdir(state))
                     try:
                         with open(data, "wb") as f:
                             f.write(b"x")
@@ -402,12 +730,14 @@ def main():
                 res = "bad-op"
         except KeyError:
             res = "bad-op"
+        except ViewError as e:
+            res = "err ViewError " + str(e)[:300].replace("\n", " ")
         except BaseException as e:          # noqa: BLE001
             res = "err " + exc_name(e)
         out.write(res + "\n")
     out.flush()
-    if tmpd is not None:
-        shutil.rmtree(tmpd, ignore_errors=True)
+    if state["tmpd"] is not None:
+        shutil.rmtree(state["tmpd"], ignore_errors=True)
 
 
 if __name__ == "__main__":
